@@ -261,7 +261,18 @@ pub fn gen_message(cx: &mut Ctx, r: &mut Rng, kind: usize) -> VMessage {
         16 => MessageType::Response(ResponseSpecific::NoMoreRecentValue(NoMoreRecentValueResponseArguments { responder_id: id(r), token: token(r), nodes: onode_list(r), seq: int64(r) })),
         _ => MessageType::Error(dht::errors::ErrorSpecific {
             code: *r.pick(&[201i32, 203, 205, 301, 302, 0, -1, i32::MAX, i32::MIN]),
-            description: r.pick(&["", "A Generic Error Ocurred", "Bad token", "caf\u{e9} \u{20ac}"]).to_string(),
+            description: match r.below(8) {
+                0 => String::new(),
+                1 => "A Generic Error Ocurred".to_string(),
+                2 => "Bad token".to_string(),
+                3 => "caf\u{e9} \u{20ac}".to_string(),
+                4 => "x".repeat(r.range(100, 300) as usize),
+                5 => format!("{}\u{e9}{}", "a".repeat(r.range(120, 135) as usize), "b".repeat(r.range(0, 20) as usize)),
+                // long runs of multi-byte characters behind a short ASCII prefix: whatever byte offset
+                // someone cuts at, it is inside a character for about half of these strings
+                6 => format!("{}{}", "a".repeat(r.below(4) as usize), r.pick(&["\u{e9}", "\u{20ac}", "\u{1F600}"]).repeat(r.range(40, 200) as usize)),
+                _ => format!("{}\u{20ac}", "z".repeat(r.range(60, 260) as usize)),
+            },
         }),
     };
     VMessage {
